@@ -12,7 +12,10 @@ THEOREMS = [
     "roundtrip_refresh", "roundtrip_notification", "as4_roundtrip", "decode_encode_fixed_point",
     "decode_encode_fixed_point_frame", "as4_roundtrip_full_false", "check_run_full_false", "witness_nexthop",
     "witness_confed_tail", "dom_examples_multiframe", "two_octet_peer_example", "flowspec_len_roundtrip", "flowspec_nlri_framed", "flowspec_len_4096", "two_octet_attributes_roundtrip",
-    "two_octet_attribute_block", "repaired_dropped", "repaired_refused", "repaired_open", "repaired_partial", "repaired_confed",
+    "two_octet_attribute_block", "label_stack_roundtrip", "vpn_nlri_roundtrip", "labeled_nlri_roundtrip",
+    "labeled_withdraw_roundtrip", "label_nlri_too_long", "flowspec_op_roundtrip", "flowspec_rule_roundtrip",
+    "flowspec_rule_too_long", "evpn_nlri_roundtrip", "nlri_codecs_roundtrip", "struct_entries_decode_as_sent",
+    "nlri_codec_examples", "nlri_codec_examples_wf", "repaired_dropped", "repaired_refused", "repaired_open", "repaired_partial", "repaired_confed",
     "repaired_notification",
 ]
 
@@ -31,22 +34,42 @@ THEOREM_BACKED = ["OPEN + all capability kinds (block <= 253 bytes)", "NOTIFICAT
                   "level, exact condition = what RFC 6793 can carry)",
                   "PeerCodec::negotiate vs the RFC reading of simple capability sets (negotiate_agrees; also re-checked by the "
                   "oracle on every generated case), mirror property of the two codecs",
+                  "NLRI codecs of VPN-IPv4/IPv6 (RFC 4364/4659: label stack of any depth, the three RD types, prefix), labeled "
+                  "unicast IPv4/IPv6 (RFC 8277: label stack; withdrawal with the compatibility field 0x800000), Flow "
+                  "Specification IPv4/IPv6 and their VPN forms (RFC 8955/8956: prefix components incl. the IPv6 offset, "
+                  "operator/value lists with 1/2/4/8-octet values and recomputed length bits, any number of components, both "
+                  "forms of the length field, the RD) and EVPN route types 1-5 (RFC 7432 7.1-7.4, RFC 9136): modelled encoder "
+                  "AND decoder, decode . encode = id on every well-formed value, refusal beyond the one-octet bit count / the "
+                  "12-bit rule length (function level: vpn_nlri_roundtrip, labeled_nlri_roundtrip, labeled_withdraw_roundtrip, "
+                  "flowspec_op_roundtrip, flowspec_rule_roundtrip, evpn_nlri_roundtrip, nlri_codecs_roundtrip, "
+                  "label_nlri_too_long, flowspec_rule_too_long; struct_entries_decode_as_sent: in the model run such entries "
+                  "decode as sent by the modelled codec, no measurement involved; nlri_codec_examples: the model writes the "
+                  "octets pinned in the corpus). The harness reads the structure of every such NLRI off the Rust value through "
+                  "public fields and puts it into the case, so the model's octets are compared with the real encoder's on "
+                  "every generated entry of these 11 families",
                   "chunk loop, for EVERY input (all families, all message kinds, both profiles): every frame do_encode returns is "
                   "within the negotiated maximum (encode_frame_bound_all), put_entries never returns a zero count for a non-empty "
                   "list (put_entries_progress), and whenever encode_to returns Ok the per-frame counts partition the entry list "
                   "(encode_never_drops)"]
-HYPOTHESIS_BACKED = ["NLRI encoders/decoders of VPNv4/v6, labeled-unicast v4/v6, EVPN, flowspec v4/v6(+VPN), BGP-LS, MUP v4/v6, "
-                     "SR-policy v4/v6, RTC: wire bytes and per-entry decode verdict are measured on the real code (probe) and "
-                     "passed in the case; framing/chunking around them is the modelled code; judged by the structural oracle "
-                     "(frame bound, length consistency, byte-level partition, decode-back equality by the REAL decoder). "
-                     "Flow Specification: the NLRI length field (flowspec.rs write_nlri_len / read_nlri_len, Nlri::put_flowspec) IS "
-                     "modelled (flowNlriLen / readFlowNlriLen / putFlowspec) with theorems about its two forms "
-                     "(flowspec_len_roundtrip, flowspec_nlri_framed); the oracle checks on every flowspec entry that the real wire "
-                     "bytes are a well-framed length + rule in the form RFC 8955 4.1 prescribes; rule bodies of exactly 238..242, "
-                     "254..257, 4094, 4095 and 4096 octets are generated every run (the rule's components stay impl-only). "
-                     "Whether such an NLRI is encodable at all is decided from the INPUT (Codec.hasWireForm: label-stack bits "
-                     "<= 255), not by the probe: a refused valid NLRI is the failure `valid-entry-refused`; corpus "
-                     "seed-families-embedded-probes.case pins the wire bytes of every family"]
+HYPOTHESIS_BACKED = ["UPDATEs of the families outside IPv4/IPv6 unicast+multicast as WHOLE messages: the master theorem does not range "
+                     "over them. What holds for them by theorem: every frame within the negotiated maximum, progress, the per-frame "
+                     "counts partition the entry list (chunk-loop theorems, every family), and - for VPN-IPv4/IPv6, labeled unicast, "
+                     "flowspec(+VPN) and EVPN - the NLRI codec round trip at function level. What connects the two is checked per case, "
+                     "not proved: the structural oracle (frame bound, length consistency, byte-level partition of the NLRI region into "
+                     "the entries' encodings, decode-back equality by the REAL decoder, fixed point) and the assumption that the "
+                     "decoder of an MP_REACH/MP_UNREACH region is the concatenation of the per-NLRI decoders (Run.combineProbes)",
+                     "NLRI encoders/decoders of BGP-LS, MUP v4/v6, SR-policy v4/v6, RTC, and EVPN route types other than 1-5 "
+                     "(the Rust type has none): not modelled; wire bytes and per-entry decode verdict are measured on the real code "
+                     "(probe) and passed in the case; framing/chunking around them is the modelled code; judged by the structural "
+                     "oracle. Corpus seed-families-embedded-probes.case pins the wire bytes of every family",
+                     "Flow Specification, additionally: the oracle checks on every flowspec entry that the real wire bytes are a "
+                     "well-framed length + rule in the form RFC 8955 4.1 prescribes; rule bodies of exactly 238..242, 254..257, 4094, "
+                     "4095 and 4096 octets and operator values at the 1/2/4/8-octet boundaries are generated every run. The codec "
+                     "theorems are about rules as the decoder returns them (FComp.Wf: operator lists non-empty, end-of-list bit on the "
+                     "last operator only, no length bits in `bits`, prefix bits beyond the mask zero); other inputs are encoded by "
+                     "model and real code alike but are outside the round-trip statement",
+                     "Whether an NLRI is encodable at all is decided from the INPUT (structWire / Codec.hasWireForm: label-stack bits "
+                     "<= 255, rule <= 4095 octets), not by the probe: a refused valid NLRI is the failure `valid-entry-refused`"]
 
 CONFIG = dict(
     level_text="Kernel-checked Lean theorems about a hand-written model of the BGP encoder (PeerCodec::negotiate, encode_to / "
@@ -70,8 +93,10 @@ CONFIG = dict(
                "unicast/multicast (incl. multi-frame ones, kernel-evaluated examples dom_examples_multiframe); announcements on "
                "4-octet-AS sessions and towards 2-octet-AS peers (there: AS_PATH within what RFC 6793 can carry; example "
                "two_octet_peer_example), "
-               "without the padded IPv4 next hop inside MP_REACH (F4d; IPv4 multicast with its as-is IPv4 next hop is inside). Modelled, not verified: the families "
-               "outside the model (probe-parameterised, impl-only oracle), BytesMut growth, non-ASCII FQDN, Family reserved octet.",
+               "without the padded IPv4 next hop inside MP_REACH (F4d; IPv4 multicast with its as-is IPv4 next hop is inside). VPN / labeled-unicast / flowspec / EVPN NLRI: "
+               "codec theorems at function level (NStruct.Wf), whole messages of these families by oracle + correspondence only. "
+               "Modelled, not verified: BGP-LS, MUP, SR-policy, RTC NLRI (probe-parameterised, impl-only oracle), BytesMut growth, "
+               "Family reserved octet.",
     lean_modules=["Rbgp.Enc.Props"],
     theorems=["Rbgp.Enc.Props." + t for t in THEOREMS],
     harness=dict(kind="pt", bin="c04"),
@@ -82,7 +107,8 @@ CONFIG = dict(
     rule="one case = (local capability set, remote capability set, message); the real encode_to output (all frames) and what "
          "the real peer codec negotiate(remote, local) decodes from it, plus the re-encode/decode fixed-point probe, are "
          "compared with the model byte for byte in debug and release builds; the oracle is run on the real observation. "
-         "Generator: all message kinds; IPv4/IPv6 unicast+multicast plus 15 impl-only families; entry counts 0..3x frame "
+         "Generator: all message kinds; IPv4/IPv6 unicast+multicast plus 15 further families (11 of them with a modelled NLRI "
+         "codec: the case carries the NLRI's structure and the model encodes/decodes it itself; 4 probe-only); entry counts 0..3x frame "
          "capacity around the frame boundaries (4096 and 65535); attribute blocks 0..limit incl. just below/above what leaves "
          "room for one NLRI; all pairs of (4-octet AS, extended message, add-path mode 0-3, extended next hop) per side; AS paths "
          "with 255-AS segments, >255 hops, wide AS, confed segments; attributes stored with EXTENDED/PARTIAL bits (values "
@@ -97,15 +123,18 @@ CONFIG = dict(
     trusted_base=["model Rbgp/Enc/Model.lean (encoder) and Rbgp/Enc/Reader.lean (peer decoder, written from RFC 4271/4760/7911/"
                   "6793/5492 and aligned with parse_message on encoder-producible frames) of packet/src/bgp.rs",
                   "harness/pt/src/bin/c04.rs + src/c04_fam.rs: builds Message values through the public constructors (and `raw` "
-                  "attributes through the real decoder), renders ParsedMessage through public accessors; for impl-only families "
-                  "the NLRI values come from deterministic constructors and their wire bytes / decode verdicts are probes measured "
-                  "on the same build",
+                  "attributes through the real decoder), renders ParsedMessage through public accessors; for the families "
+                  "outside IPv4/IPv6 the NLRI values come from deterministic constructors; their wire bytes / decode verdicts are "
+                  "probes measured on the same build and, for VPN / labeled unicast / flowspec / EVPN, their structure (labels, RD, "
+                  "prefix, components, operators, route fields) is read off the value through public fields (struct_term)",
                   "spec Rbgp/Enc/Spec.lean: `buildable` (what the daemon can build) delimits the quantifier; `encodable` (every entry "
                   "fits a frame of its own by the RFC wire sizes, capability block within its one-octet lengths, every NLRI has a "
                   "wire form) decides whether a refusal (Err) is the required or a forbidden outcome; canonicalisation = "
                   "extended-length flag, FQDN lower-casing, NOTIFICATION data cut to the negotiated maximum"],
     modelled_not_verified=["announcements towards a 2-octet-AS peer whose AS_PATH hits an RFC 6793 limit (confederation segment not "
-                           "leading / wide AS inside one): model + correspondence, outside the theorem by hypothesis", "families outside the model (hypothesis-backed, see assumptions)",
+                           "leading / wide AS inside one): model + correspondence, outside the theorem by hypothesis", "whole UPDATEs of VPN / labeled-unicast / flowspec / EVPN: NLRI codec proved at function level, chunk loop proved for "
+                           "every family, their composition with the peer's MP attribute parser only checked per case (see assumptions)",
+                           "BGP-LS, MUP, SR-policy, RTC NLRI: not modelled (probes)",
                            "BytesMut growth/reserve, the tokio Framed adapter",
                            "daemon/src/event/mod.rs flush_tx (Err => log + skip the message, sync_tx counting, the txbuf flush "
                            "threshold) and PendingTx::drain_messages (grouping prefixes into messages): daemon code that no C04 "
